@@ -71,7 +71,7 @@ ibz_vec_4_print2(char *name, const ibz_vec_4_t *vec)
 
 // compute the commitment with fixed degree isogeny
 // and apply it to the basis of E0
-void
+int
 commit(ec_curve_t *E_com, quat_left_ideal_t *lideal_com)
 {
 
@@ -87,12 +87,13 @@ commit(ec_curve_t *E_com, quat_left_ideal_t *lideal_com)
     found = fixed_degree_isogeny(&F, lideal_com, &n, &adj, 1);
 
     // it's always the second curve
-    copy_curve(E_com, &F.codomain.E2);
-
-    assert(found);
+    if (found) {
+        copy_curve(E_com, &F.codomain.E2);
+    }
 
     ibz_finalize(&n);
     ibz_finalize(&adj);
+    return found;
 }
 
 void
@@ -330,7 +331,11 @@ protocols_sign(signature_t *sig,
     }
 #endif
     // computing the commitment
-    commit(&E_com, &lideal_commit);
+    if (!commit(&E_com, &lideal_commit)) {
+        // the fixed degree isogeny computation failed: E_com is not set
+        found = 0;
+        goto cleanup;
+    }
 #ifdef SQISIGN_SQISIGN2D_WEST_AC24_VERIF
     if (verif_env_int("SQI_VERIF_H1_REUSE_COMMIT", 0)) {
         if (!verif_com_cached)
@@ -443,7 +448,11 @@ verif_commit_done:;
 
     // now we evaluate this isogeny on the basis of E0
     // Baux0 = image through aux_com isogeny (odd degree) of canonical basis of E0
-    dim2id2iso_arbitrary_isogeny_evaluation(&Baux0, &E_aux, &lideal_aux_com);
+    if (!dim2id2iso_arbitrary_isogeny_evaluation(&Baux0, &E_aux, &lideal_aux_com)) {
+        // the ideal to isogeny translation failed: E_aux and Baux0 are not set
+        found = 0;
+        goto cleanup;
+    }
 
 #ifndef NDEBUG
     // testing
